@@ -7,7 +7,7 @@ import functools
 
 import z3
 
-from .values import (B, I, Bound, ClassV, Ext, FiltV, FuncV, NativeFn, Obj, PyRaise, Rec, SeqV, Unsupported,
+from .values import (B, I, Bound, ClassV, Ext, FiltV, FuncV, NativeFn, Obj, PyRaise, Rec, SeqV, SymList, Unsupported,
                      is_num, is_obj, is_sym, is_z, is_zbool, is_zstr, isnone_of, len_of, real_of, str_of, ufunc)
 
 
@@ -188,7 +188,7 @@ def _len(eng, x):
     from .tensor import PT
     if isinstance(x, (list, tuple, dict, str, set, range, frozenset)):
         return len(x)
-    if isinstance(x, SeqV):
+    if isinstance(x, (SeqV, SymList)):
         return x.n
     if isinstance(x, FiltV):
         raise Unsupported("len of filtered symbolic sequence")
@@ -206,6 +206,11 @@ def _len(eng, x):
 
 
 def _list(eng, x=()):
+    from .interp import _MapLike
+    if isinstance(x, _MapLike):
+        x = x.iterate(eng)
+    if isinstance(x, SymList) and eng.known_length(x) is None:
+        return SymList(x.n, x.at)
     if is_obj(x) or isinstance(x, SeqV):
         known = eng.known_length(x)
         if known is None:
@@ -589,3 +594,29 @@ _Model.ext_models.update({
     "operator.iadd": _op_iadd,
     "tqdm.tqdm": lambda eng, rec: rec.args[0],         # identity on its iterable (DESIGN 2.1)
 })
+
+
+def _np_asarray(eng, rec):
+    from .tensor import lift, PT
+    x = rec.args[0]
+    if is_obj(x):
+        return x
+    return lift(eng, x)
+
+
+def _np_any(eng, rec):
+    from .tensor import PT, lift
+    from .interp import _or
+    x = rec.args[0]
+    if is_obj(x):
+        f = ufunc("np_any", Obj, B)
+        return f(x)
+    t = lift(eng, x)
+    if not t.concrete_shape():
+        raise Unsupported("np.any over symbolic extent")
+    import itertools
+    idxs = itertools.product(*[range(d) for d in t.shape])
+    return _or([eng.to_bool(t.fn(tuple(z3.IntVal(j) for j in idx))) for idx in idxs])
+
+
+_Model.ext_models.update({"numpy.asarray": _np_asarray, "numpy.any": _np_any})
